@@ -444,3 +444,112 @@ Section Complete.
       rewrite Rmult_assoc, Rinv_l, Rmult_1_r in Hc by lra. exact Hc.
   Qed.
 End Complete.
+
+(* ================= completeness, full strength: agreement on every variable that is not substituted away ================= *)
+Lemma rep_of_step m t s : (forall i, exists r, rep (length m) m i = Some r) -> lookup m t = Some s ->
+  rep_of m t = rep_of m s.
+Proof.
+  intros T El. unfold rep_of. destruct (T t) as (rt & Et), (T s) as (rs & Es). rewrite Et, Es.
+  apply rep_more in Et. cbn [rep] in Et. rewrite El in Et. congruence.
+Qed.
+
+Section Agree.
+  Variable vars : list fv.
+  Variable work : list (nat * nat).
+  Variable m : list (nat * nat).          (* the final mapping *)
+  Variable nu : nat -> R.
+  Hypothesis Tm : forall i, exists r, rep (length m) m i = Some r.
+  Hypothesis Nm : NoDup (map fst m).
+
+  (* assigned_to and the representative: same class, same value *)
+  Definition agree_inv (st : cstate) : Prop :=
+    forall v a, nth v (asg st) None = Some a -> rep_of m a = rep_of m v /\ nu a = nu (rep_of m a).
+
+  Lemma conv_num_si s t a cf : conv (uv_of vars s) (uv_of vars t) = Some cf ->
+    scaleR (uv_of vars a) = scaleR (uv_of vars s) ->
+    (nu t / scaleR (uv_of vars t) = nu a / scaleR (uv_of vars a) * scaleR cf)%R -> nu t = nu a.
+  Proof.
+    intros Hc Sa E. rewrite Sa, (conv_scaleR _ _ _ Hc) in E.
+    pose proof (scaleR_pos (uv_of vars s)). pose proof (scaleR_pos (uv_of vars t)).
+    replace (nu t) with (nu t / scaleR (uv_of vars t) * scaleR (uv_of vars t))%R by (field; lra).
+    rewrite E. field. lra.
+  Qed.
+
+  Lemma agree_step st c st' : sound_inv vars work st -> agree_inv st -> cstep vars st c = ODone st' ->
+    (snd c < length (asg st))%nat -> lookup m (snd c) = Some (fst c) ->
+    (forall t a cf, In (FConv t a cf) (ceqs st') ->
+        (nu t / scaleR (uv_of vars t) = nu a / scaleR (uv_of vars a) * scaleR cf)%R) ->
+    agree_inv st'.
+  Proof.
+    intros (SA & _) K E L El Hq. destruct c as [s t]. cbn [fst snd] in *. apply cstep_done in E.
+    destruct E as (Ht & a & cf & Hs & Hc & E). destruct (K _ _ Hs) as (Ra & Va). destruct (SA _ _ Hs) as (_ & Sa).
+    pose proof (rep_of_step m t s Tm El) as Rt.
+    destruct E as [(H1 & cm' & _ & ->)|(H1 & _ & ->)]; cbn [asg ceqs] in *; intros v x Hx; cbn [asg] in Hx.
+    - destruct (Nat.eq_dec t v) as [<-|N].
+      + rewrite nth_upd_eq in Hx by auto. inversion Hx. subst x. split; [congruence|exact Va].
+      + rewrite nth_upd_neq in Hx by auto. auto.
+    - destruct (Nat.eq_dec t v) as [<-|N].
+      + rewrite nth_upd_eq in Hx by auto. inversion Hx. subst x. split; auto.
+        rewrite (conv_num_si s t a cf Hc Sa (Hq t a cf (or_introl eq_refl))). rewrite Rt, <- Ra. exact Va.
+      + rewrite nth_upd_neq in Hx by auto. auto.
+  Qed.
+
+  Lemma agree_run : forall p st st', run vars st p = Some st' -> sound_inv vars work st -> agree_inv st ->
+    (forall c, In c p -> In c work) -> (forall c, In c p -> (snd c < length (asg st))%nat) ->
+    incl (cmap st') m ->
+    (forall t a cf, In (FConv t a cf) (ceqs st') ->
+        (nu t / scaleR (uv_of vars t) = nu a / scaleR (uv_of vars a) * scaleR cf)%R) ->
+    agree_inv st'.
+  Proof.
+    induction p as [|c r IH]; intros st st' H SI K Hw L Im Hq; cbn in H. { inversion H. subst. exact K. }
+    destruct (cstep vars st c) as [| |s1] eqn:E; try discriminate.
+    pose proof (run_incl _ _ _ _ H) as (Ic & Ie).
+    assert (Lc : (snd c < length (asg st))%nat) by (apply L; now left).
+    apply (IH s1 st' H); auto.
+    - eapply sound_inv_step; eauto. apply Hw. now left.
+    - apply (agree_step st c s1 SI K E Lc).
+      + apply lookup_of_in; auto. apply Im, Ic. apply cstep_asg in E. destruct E as (_ & _ & x & _ & Em).
+        rewrite Em. now left.
+      + intros t a cf Hin. apply Hq, Ie, Hin.
+    - intros c' Hc'. apply Hw. now right.
+    - intros c' Hc'. rewrite (cstep_length _ _ _ _ E). apply L. now right.
+  Qed.
+End Agree.
+
+Section Complete2.
+  Variable fsem : Z -> list R -> option R.
+  Variable psem : R -> R -> option R.
+  Variable csem : Z -> option R.
+
+  Theorem flatten_complete d f nu de : load d = OK f -> init_no_in f ->
+    flat_sat fsem psem csem nu de d f ->
+    let m := rev (f_map f) in
+    doc_sat fsem psem csem (fun i => nu (rep_of m i)) (fun i j => de (rep_of m i) (rep_of m j)) d /\
+    (forall v a, nth v (f_asg f) None = Some a -> nu (rep_of m v) = nu a) /\
+    (forall i, lookup m i = None -> rep_of m i = i).
+  Proof.
+    intros H Hin Hsat m.
+    destruct (flatten_complete_partial fsem psem csem d f nu de H Hin Hsat) as (A & B). fold m in A, B.
+    split; [exact A|]. split; [|exact B].
+    apply load_stages in H. pose proof (s_flat _ _ H) as Ef. subst f. cbn [f_map f_asg f_vars f_eqs] in *.
+    subst m. rewrite rev_involutive in *.
+    set (vars := st_vars d) in *. set (cs := st_cs d) in *. set (work := st_work d) in *.
+    pose proof (connect_inv _ _ _ _ _ _ (s_dirs _ _ H) (s_conn _ _ H)) as CI. fold vars cs in CI.
+    destruct (stages_schedule _ _ H) as (p & Pp & Hr). fold vars cs work in Pp, Hr.
+    assert (K : agree_inv (cmap cs) nu cs).
+    { apply (agree_run vars work (cmap cs) nu (rep_terminates _ _ (proj1 CI)) (chain_nodup' _ _ (proj1 CI))
+                       p (init_cs vars) cs Hr (sound_inv_init vars work)).
+      - intros v a Hv. cbn in Hv. pose proof (init_asg_self _ _ _ _ Hv) as E. cbn in E. subst a. split; auto.
+        f_equal. symmetry. apply B. apply lookup_notin. intros Kk.
+        pose proof (chain_keys_init _ _ (proj1 CI) _ Kk) as Z0. congruence.
+      - intros c Hc. eapply Permutation_in; eauto.
+      - intros c Hc. cbn. rewrite init_asg_length. apply (stages_range _ _ H). eapply Permutation_in; eauto.
+      - apply incl_refl.
+      - intros t a cf Hcv.
+        assert (Hf : In (FConv t a cf) (rev (fst (st_ei d)))).
+        { apply -> in_rev. pose proof (s_tc _ _ H) as T. unfold transform_constants in T. apply tc_incl in T.
+          apply T. cbn [fst]. pose proof (stages_maths _ _ H) as (Em & _ & _). rewrite Em. apply in_or_app. right. exact Hcv. }
+        apply Hsat in Hf. exact Hf. }
+    intros v a Hv. destruct (K v a Hv) as (Ra & Va). rewrite <- Ra. symmetry. exact Va.
+  Qed.
+End Complete2.
